@@ -36,6 +36,9 @@ const modPath = "github.com/quickfixgo/quickfix"
 var lockSkip = map[string]bool{
 	"message.go": true, "repeating_group.go": true,
 	"message_router.go": true, "tls.go": true,
+	// the write loop's queue lock is held for a few statements with no scheduling point inside; its two
+	// goroutines are not tasks of the cooperative scheduler
+	"connection.go": true,
 }
 
 // Files whose mutexes are pointers (passed as they are, not by address). field_map.go's per-message
